@@ -28,6 +28,8 @@ pub enum PointClass {
     Rough,
     /// coordinates a few ulps apart (adjacent floats of the element type)
     AdjacentFloats,
+    /// hundreds to thousands of collinear / lattice / two-scale points derived from a seed
+    LargeStructured,
     Bytes,
 }
 
@@ -49,6 +51,12 @@ pub enum Radius {
     Abs(f64),
     /// exactly the crate's `distance(query, stored[idx])` (idx mapped monotonically into 0..n; 0 if n = 0)
     ToPoint(u16),
+    /// the crate's `distance(query, stored[idx])` moved by the given number of ulps of the element type
+    /// (positive = up): radii a few ulps above / below an exact inter-point distance
+    ToPointUlps(u16, i8),
+    /// the crate's `distance(query, p)` for the stored point p at the given rank of the brute-force order
+    /// (0 = nearest; clamped to n-1), moved by the given number of ulps
+    ToRankUlps(u16, i8),
     /// half-way between two consecutive distinct query-to-point distances (gap index mapped monotonically)
     Between(u16),
     /// larger than the diameter of {query} ∪ points
@@ -145,14 +153,25 @@ pub fn case_from_bytes(data: &[u8]) -> Option<Case> {
     let mut queries = Vec::with_capacity(nq);
     for _ in 0..nq {
         let qmode = b.u8();
-        let k = (b.u8() as usize) % (n + 4);
+        // k from 0 beyond n, including values no collection could ever be sized for
+        let kb = b.u8();
+        let k = match kb {
+            249 => 2 * n,
+            250 => 1usize << 20,
+            251 => ((1u64 << 40).min(usize::MAX as u64)) as usize,
+            252 => usize::MAX / 2,
+            253 => usize::MAX - 1,
+            254 | 255 => usize::MAX,
+            _ => (kb as usize) % (n + 4),
+        };
         let rmode = b.u8();
         let rarg = b.u16();
-        let radius = match rmode % 5 {
+        let radius = match rmode % 6 {
             0 => Radius::Abs((rarg % 16) as f64),
             1 => Radius::ToPoint(rarg),
             2 => Radius::Between(rarg),
             3 => Radius::Beyond,
+            4 => Radius::ToPointUlps(rarg, ((rmode / 6) as i8 % 7) - 3),
             _ => Radius::Abs((rarg as f64) / 64.0),
         };
         let (point, class) = match qmode % 8 {
